@@ -62,6 +62,7 @@ async def check_request(ctx, s, engine, req, sdl, gp):
     st = ctx.stats
     g = CountingGarbage(s)
     w = world_mod.World(s, req.wseed, garbage=g, garbage_p=gp)
+    w.share_values = req.wseed % 3 == 0           # one field instance reached twice hands out the same (hostile) object
     case = dict(req.describe(), sdl=sdl, garbage_p=gp)
     stt, coerced, _ = values.coerce_variables(s, req.op.vardefs, req.variables or {})
     if stt == "err":
@@ -108,9 +109,12 @@ async def check_request(ctx, s, engine, req, sdl, gp):
                 ctx.violation("error-path-not-in-data", "error path %s does not exist in data" % p, case)
     epaths = [tuple(e["path"]) for e in errs if isinstance(e, dict) and isinstance(e.get("path"), list)]
     if resp["data"] is not None:
-        for path, v in w.returns:
+        for path, v, tname in w.returns:
             if v is None:
                 continue
+            td = s.types.get(tname)
+            if td is not None and td.kind == "SCALAR" and values.custom_scalar_output(td.impl, v) == ("ok", None):
+                continue    # the custom scalar's own result coercion yields null for this value
             at = X.data_at(resp["data"], path)
             if at[0] == "value" and at[1] is None and not any(ep[:len(path)] == path for ep in epaths):
                 ctx.violation("silent-null", "resolver at %s returned %s, data has null there and no error at or below"
